@@ -23,7 +23,9 @@ RULE = (
     "puzzle-shaped templates (cardinality over up to 24 cells, linear sums, wide alldifferent, guarded comparisons), 65% of "
     "sessions witness-biased; constraints and answer keys are handed over positionally, as lists, nested lists, arrays, "
     "generators and tuples; non-trivial = at least one find_answer whose reference model set is neither empty nor the whole "
-    "domain; distinct = distinct SHA-256 of the run's event log"
+    "domain; distinct = distinct SHA-256 of the run's event log"    " 8% of the runs are programs beyond exhaustive enumeration (12-30 variables, domains up to 31 values and around 2^31 / 2^63, "
+    "trees up to 60 nodes, wide nodes over up to 24 distinct variables), satisfiable by construction (hidden witness) and checked by "
+    "pinning every variable to the witness, to boundary assignments (all low / all high / one-hot / one-cold) and to random assignments"
 )
 STATE_MEASURE = "distinct (declarations, model set) pairs at find_answer time"
 COMPONENTS = {
